@@ -10,8 +10,9 @@
       `enumOK` = `ik&(String|Int) == ik`, `op` / `nargs` = `Expr()` (operand views only under `&` and `|`);
     * `refPath` = `ReferencePath()`'s path text, `refName` = label of its last selector (the default `NameFunc`),
       `refPkg` = `referenceResolver.PackageForNode(v.Source(), pkg)` (data computed by the encoder from the syntax
-      node, no libraries and no import alias), `refBadSel` = some selector of the path is neither a pattern
-      constraint, a string label nor a definition label (the guard at the top of `declareReference`, fix 0643960);
+      node, no libraries and no import alias), `refBadSel` = the LAST selector of the path is neither a pattern
+      constraint, a string label nor a definition label (the guard at the top of `declareReference`, fixes 0643960
+      and 81c841c);
       a value with a reference path carries nothing below it
       (`declareNode` stops at `declareReference`);
     * `hasDefault`, `dflt` = `Default()` as `cueConcreteToScalar` reads it (`CS`), its reference path, `Equals(v)`;
